@@ -1198,6 +1198,12 @@ func cleanFlagConditions(fcs *[]FlagCondition) bool {
 		forbidden  []uint64
 	}
 	infos := []forbiddenFlagValues(nil)
+	// only the bits some condition looks at can make a difference: enumerate their combinations
+	// instead of all 65536 flag values
+	usedBits := uint16(0)
+	for _, fc := range *fcs {
+		usedBits |= fc.Mask
+	}
 next_fc:
 	for _, fc := range *fcs {
 		sort.Strings(fc.SubQueries)
@@ -1214,11 +1220,11 @@ next_fc:
 			continue
 		}
 		forbidden := make([]uint64, 0x10000/64)
-		for v := uint16(0); ; v++ {
+		for v := usedBits; ; v = (v - 1) & usedBits {
 			if v&fc.Mask == fc.Value {
 				forbidden[v/64] |= 1 << (v % 64)
 			}
-			if v == math.MaxUint16 {
+			if v == 0 {
 				break
 			}
 		}
@@ -1247,7 +1253,10 @@ next_fc:
 		mask := uint16(0)
 		for bit := 0; bit < 16; bit++ {
 			m := uint16(1 << bit)
-			for v := ^m; ; v = (v - 1) & ^m {
+			if usedBits&m == 0 {
+				continue
+			}
+			for v := usedBits &^ m; ; v = (v - 1) & usedBits &^ m {
 				f1 := 1 & (info.forbidden[v/64] >> (v % 64))
 				f2 := 1 & (info.forbidden[(v^m)/64] >> ((v ^ m) % 64))
 				if f1 != f2 {
